@@ -50,6 +50,16 @@ def rule_tetrahedron_table(ck, repo):
         if len(defs) != 1:
             raise AnalysisError(f'{f.fq}: table key variable {key.id} has {len(defs)} definitions')
         key = defs[0].value
+    elif isinstance(key, ast.Tuple) and key.elts and all(isinstance(e, ast.Name) for e in key.elts):
+        # i0, i1, i2 = (<stored>.index(x) for x in <given>[:3]) ; table[(i0, i1, i2)]
+        names = [e.id for e in key.elts]
+        defs = [n for n in ast.walk(f.node) if isinstance(n, ast.Assign) and len(n.targets) == 1 and isinstance(n.targets[0], ast.Tuple)
+                and [src(e) for e in n.targets[0].elts] == names]
+        if len(defs) == 1:
+            v = defs[0].value
+            if isinstance(v, (ast.GeneratorExp, ast.ListComp)):
+                v = ast.Call(func=ast.Name(id='tuple', ctx=ast.Load()), args=[v], keywords=[])
+            key = v
     gen = None
     if isinstance(key, ast.Call) and src(key.func) == 'tuple' and len(key.args) == 1 and \
             isinstance(key.args[0], (ast.GeneratorExp, ast.ListComp)) and len(key.args[0].generators) == 1:
@@ -86,7 +96,7 @@ def rule_tetrahedron_table(ck, repo):
     hsel = src(elts[-1]) if not isinstance(elts[-1], ast.Starred) else src(elts[0])
     ck.decide('== H' in hsel and f'in {given_var}' in hsel, R2, 'hydrogen-pick', hsel,
               f'the appended atom must be the hydrogen among the given neighbours: {hsel}', **loc)
-    _flip_rule(ck, R2, f, '_tetrahedron_translate[%s]' % src(subs[0].slice))
+    _flip_rule(ck, R2, f, str(src(subs[0])))
     _sign_source(ck, R2, f, 'self._atoms[n].stereo')
 
 
